@@ -374,8 +374,10 @@ def finish(ctx, level="model_checking", rule="", assumptions=(), trusted=()):
     ev = dict(property_id=ctx.prop, tier=ctx.tier, seed=ctx.seed, level=level, coverage=cov,
               assumptions=list(assumptions), wall_s=round(wall, 1), violations=len(ctx.rejected))
     if not ctx.is_replay:       # a --replay run judges one recorded case and must not replace the evidence of the last full run
-        os.makedirs(os.path.join(VERIF, "evidence"), exist_ok=True)
-        json.dump(ev, open(os.path.join(VERIF, "evidence", ctx.prop + ".json"), "w"), indent=1)
+        # checks beyond the listed properties (X..: specification growth) report under extra/, not among the properties' evidence
+        sub = "evidence" if ctx.prop.startswith("C") else "extra"
+        os.makedirs(os.path.join(VERIF, sub), exist_ok=True)
+        json.dump(ev, open(os.path.join(VERIF, sub, ctx.prop + ".json"), "w"), indent=1)
     print("%s %s seed=%d: %d TLC states, %d impl events judged, %d traces, %d rejected, %d known, %.1fs" % (
         ctx.prop, ctx.tier, ctx.seed, ctx.states, ctx.evaluations, ctx.traces, len(ctx.rejected),
         len(ctx.known), wall), flush=True)
